@@ -10,6 +10,7 @@ import (
 	"sort"
 	"strings"
 	"testing"
+	"time"
 
 	"github.com/keep-network/keep-core/internal/testutils"
 	"github.com/keep-network/keep-core/pkg/chain"
@@ -21,6 +22,7 @@ import (
 	"github.com/keep-network/keep-core/pkg/verifshim/venum"
 	"github.com/keep-network/keep-core/pkg/verifshim/vrep"
 	"github.com/keep-network/keep-core/pkg/verifshim/vsched"
+	"github.com/keep-network/keep-core/pkg/verifshim/vtime"
 )
 
 // ---------------------------------------------------------------------------------
@@ -94,29 +96,30 @@ func (c *c11Clock) sleepUntil(b uint64) {
 
 // c11Att is what the seams saw of one attempt (0 / false = not observed).
 type c11Att struct {
-	N            uint   `json:"n"`
-	Start        uint64 `json:"start"`        // attemptStartBlock field when the attempt was entered
-	EnteredAt    uint64 `json:"entered_at"`   // clock at the first seam call of the attempt
-	WaitBlock    uint64 `json:"wait_block"`   // block the loop thread waited for before announcing
-	Waited       bool   `json:"waited"`       //
-	Announced    bool   `json:"announced"`    // announcer invoked
-	AnnEntry     uint64 `json:"ann_entry"`    // clock when the announcer was invoked
-	AnnExit      uint64 `json:"ann_exit"`     // clock when the announcement context was cancelled
-	AnnWaited    bool   `json:"ann_waited"`   // the fake waited for that cancellation
-	AnnCut       bool   `json:"ann_cut"`      // ... but it was the loop context that ended
-	AnnEntryCut  bool   `json:"ann_entry_cut"` // the loop context was already over when the announcer was invoked
-	Listened     bool   `json:"listened"`     // done check armed (signing)
-	ListenTO     uint64 `json:"listen_to"`    // timeout block handed to the done check
-	Executed     bool   `json:"executed"`     // attempt function invoked
-	ExecAt       uint64 `json:"exec_at"`      //
-	ParamsStart  uint64 `json:"params_start"` // attempt params
-	ParamsTO     uint64 `json:"params_to"`    //
-	DoneCtxEnd   uint64 `json:"done_ctx_end"` // clock when the done-check context was cancelled while a fake waited on it
-	DoneCtxSeen  bool   `json:"done_ctx_seen"`
-	DoneCut      bool   `json:"done_cut"` // ... but it was the loop context that ended
-	DoneEarly    bool   `json:"done_early"` // the done-check context was over before the timeout block it was announced with
-	DoneEarlyAt  uint64 `json:"done_early_at"`
-	Outcome      string `json:"outcome"`
+	N           uint   `json:"n"`
+	Faults      int    `json:"faults,omitempty"` // chain-client failures injected in this attempt
+	Start       uint64 `json:"start"`            // attemptStartBlock field when the attempt was entered
+	EnteredAt   uint64 `json:"entered_at"`       // clock at the first seam call of the attempt
+	WaitBlock   uint64 `json:"wait_block"`       // block the loop thread waited for before announcing
+	Waited      bool   `json:"waited"`           //
+	Announced   bool   `json:"announced"`        // announcer invoked
+	AnnEntry    uint64 `json:"ann_entry"`        // clock when the announcer was invoked
+	AnnExit     uint64 `json:"ann_exit"`         // clock when the announcement context was cancelled
+	AnnWaited   bool   `json:"ann_waited"`       // the fake waited for that cancellation
+	AnnCut      bool   `json:"ann_cut"`          // ... but it was the loop context that ended
+	AnnEntryCut bool   `json:"ann_entry_cut"`    // the loop context was already over when the announcer was invoked
+	Listened    bool   `json:"listened"`         // done check armed (signing)
+	ListenTO    uint64 `json:"listen_to"`        // timeout block handed to the done check
+	Executed    bool   `json:"executed"`         // attempt function invoked
+	ExecAt      uint64 `json:"exec_at"`          //
+	ParamsStart uint64 `json:"params_start"`     // attempt params
+	ParamsTO    uint64 `json:"params_to"`        //
+	DoneCtxEnd  uint64 `json:"done_ctx_end"`     // clock when the done-check context was cancelled while a fake waited on it
+	DoneCtxSeen bool   `json:"done_ctx_seen"`
+	DoneCut     bool   `json:"done_cut"`   // ... but it was the loop context that ended
+	DoneEarly   bool   `json:"done_early"` // the done-check context was over before the timeout block it was announced with
+	DoneEarlyAt uint64 `json:"done_early_at"`
+	Outcome     string `json:"outcome"`
 }
 
 type c11Trace struct {
@@ -210,6 +213,25 @@ func (e *c11Env) choose(n int, label string) int {
 	return v
 }
 
+// c11MaxFaults bounds the chain-client failures injected while the loop stays in one
+// attempt (the unchanged loops leave the attempt on every such failure, so they see at
+// most two; a loop that retries in place would otherwise make the histories unbounded).
+const c11MaxFaults = 2
+
+// fault asks whether the chain client fails at this seam call.
+func (e *c11Env) fault(label string) bool {
+	if e.att != nil && e.att.Faults >= c11MaxFaults {
+		return false
+	}
+	if e.choose(2, label) == 1 {
+		if e.att != nil {
+			e.att.Faults++
+		}
+		return true
+	}
+	return false
+}
+
 func (e *c11Env) label(s string) {
 	if e.att != nil {
 		if e.att.Outcome != "" {
@@ -227,7 +249,7 @@ func (e *c11Env) waitForBlock(ctx context.Context, b uint64) error {
 	if e.onLoopThread() {
 		e.sync()
 		e.att.WaitBlock, e.att.Waited = b, true
-		if e.choose(2, "wait") == 1 {
+		if e.fault("wait") {
 			e.label("wait-error")
 			return fmt.Errorf("c11: block counter failure")
 		}
@@ -241,7 +263,7 @@ func (e *c11Env) waitForBlock(ctx context.Context, b uint64) error {
 
 func (e *c11Env) getCurrentBlock() (uint64, error) {
 	e.sync()
-	if e.choose(2, "gcb") == 1 {
+	if e.fault("gcb") {
 		e.label("gcb-error")
 		return 0, fmt.Errorf("c11: cannot get current block")
 	}
@@ -406,7 +428,14 @@ func c11Exec(cfg c11Cfg, hist [][]int, c *venum.C) *c11Trace {
 		vsched.GoLow("miner", func() {
 			for {
 				vsched.Block("miner", func() bool { _, ok := clk.next(); return ok })
-				clk.now, _ = clk.next()
+				// blocks take time: code that pauses for a second or two (a retry delay)
+				// continues within the block it paused in, not windows later
+				nb, _ := clk.next()
+				vtime.Sleep(time.Duration(nb-clk.now) * 12 * time.Second)
+				if nb2, ok := clk.next(); ok && nb2 < nb {
+					nb = nb2 // somebody asked for an earlier block meanwhile
+				}
+				clk.now = nb
 			}
 		})
 		root, cancelRoot := vctx.WithCancel(context.Background())
@@ -467,7 +496,7 @@ func c11Exec(cfg c11Cfg, hist [][]int, c *venum.C) *c11Trace {
 		// release the helper goroutines still waiting for a block
 		cancelRoot()
 	}
-	s := vsched.Replay(nil, vsched.Options{MaxSteps: 200000}, body)
+	s := vsched.Replay(nil, vsched.Options{MaxSteps: 200000, Horizon: 100000}, body)
 	tr.Panic, tr.Stack = s.Failed()
 	tr.Deadlock = s.Deadlock
 	tr.StepCap = s.StepCapHit
@@ -677,7 +706,11 @@ func TestVerifC11(t *testing.T) {
 			if rp.Other != nil {
 				o.check(rp.Other.Cfg, rp.Other.Hist, c11Exec(rp.Other.Cfg, rp.Other.Hist, nil))
 			}
-			o.check(rp.Cfg, rp.Hist, c11Exec(rp.Cfg, rp.Hist, nil))
+			tr := c11Exec(rp.Cfg, rp.Hist, nil)
+			if b, err := json.Marshal(tr.Atts); err == nil {
+				t.Logf("replayed %+v history %v: attempts %s result %q panic %v", rp.Cfg, rp.Hist, b, tr.Result, tr.Panic)
+			}
+			o.check(rp.Cfg, rp.Hist, tr)
 			o.finish()
 		}
 		return
